@@ -50,6 +50,20 @@ def view (d : Dex) : Op → Ev
   | .constString k => if k < d.consts.length then .const k else .other
   | _ => .other
 
+/-- the operation addresses an existing class_def / encoded member / id item / const-string.
+    Operations outside this range are outside the model: `step` answers `Out.err` and changes
+    nothing (`out_of_range_is_err`), `view` reads them as `other`, the harness never sends them
+    (the real code answers its `AG:I?I:invalid_*` placeholder objects or raises AttributeError). -/
+def opInRange (d : Dex) : Op → Bool
+  | .renameClass c _ | .reloadClass c | .className c | .superName c => c < d.classes.length
+  | .renameMethod e _ | .reloadEncMethod e | .methodName e | .methodClass e | .methodDesc e =>
+    e < d.encMethods.length
+  | .renameField e _ | .reloadEncField e | .fieldName e | .fieldClass e | .fieldDesc e =>
+    e < d.encFields.length
+  | .reloadMethodId m | .midName m | .midClass m | .midDesc m | .invokeText m => m < d.methods.length
+  | .reloadFieldId f | .fidName f | .fidClass f | .fidDesc f | .fieldText f => f < d.fields.length
+  | .constString k => k < d.consts.length
+
 /-- `o` answers what the specification demands (`none` demands nothing) -/
 def agree1 (o : Out) : Option String → Bool
   | none => true
